@@ -145,6 +145,58 @@ def oracle(session, out):
     return None
 
 
+def sim_scenario(args):
+    """a C01-style session of two real agents; after every step the real stream->conncheck_list of both
+    agents is inspected: descending order, and every priority is the RFC value for the agent's current role"""
+    exe, seed = args
+    import random
+    from checks import simcommon as sc
+    from lib import simlib
+    rng = random.Random(f"C15sim/{seed}")
+    cfg = sc.base_config(rng)
+    cfg["ctrlB"] = cfg["ctrlA"] if rng.random() < 0.7 else cfg["ctrlB"]   # mostly conflicting roles: forces a switch
+    cfg["anyorder"] = False
+    s = None
+    bad = []
+    nlists = 0
+    switches = 0
+    try:
+        s = sc.start_session(exe, seed, cfg)
+        s.op("net trace 0")
+        steps = sc.signalling_steps(rng, cfg)
+        last_role = {}
+        for st in steps + ["run 40", "run 100", "run 400", "run 1000", "runidle 20000"]:
+            s.op(st)
+            if rng.random() < 0.5:
+                s.op(f"run {rng.choice([0, 1, 20, 100])}")
+            for ag in "AB":
+                ev, status = s.op(f"checklist {ag} 1")
+                w = status.split()
+                role = int(w[1].split("=")[1])
+                if ag in last_role and last_role[ag] != role:
+                    switches += 1
+                last_role[ag] = role
+                prios = []
+                for ent in w[2:]:
+                    f = ent.split(":")
+                    prio, lp, rp = int(f[0]), int(f[-2]), int(f[-1])
+                    prios.append(prio)
+                    G, D = (lp, rp) if role else (rp, lp)
+                    if prio != pair_spec(G, D) and (G, D) != (2 ** 32 - 1, 2 ** 32 - 1):
+                        bad.append(f"agent {ag} (role {role}) pair priority {prio} != RFC value {pair_spec(G, D)} for local {lp} remote {rp}")
+                if any(prios[i] < prios[i + 1] for i in range(len(prios) - 1)):
+                    bad.append(f"agent {ag} check list not in descending order: {prios}")
+                nlists += 1 if prios else 0
+            if bad:
+                break
+        return dict(seed=seed, bad=bad[:3], script=s.script, nlists=nlists, switches=switches, cfg=cfg)
+    except simlib.SimDied as e:
+        return dict(seed=seed, bad=["crash: " + str(e)[-800:]], script=s.script if s else [], nlists=nlists, switches=switches, cfg=cfg)
+    finally:
+        if s:
+            s.close()
+
+
 def run(tier, seed):
     chk = vlib.Check("C15", tier, seed)
     chk.cov["trusted_base"] = TRUSTED
@@ -190,6 +242,22 @@ def run(tier, seed):
                                "distinct op lines with a non-zero, non-error result")
             chk.cov["samples"] = [S[len(corpus)][:3], S[-1][:6]]
             chk.cov["generator_distribution"] = {"op_kinds": kinds, "corpus_sessions": len(corpus)}
+            # in-agent check-list order (real recalculate_pair_priorities at role switches)
+            from checks import simcommon as sc
+            from lib import simlib
+            oks, sexe, slog = sc.build_sim()
+            if oks:
+                nsim = 200 if tier == "quick" else 3000
+                sres = simlib.run_parallel(sim_scenario, [(sexe, seed * 100000 + i) for i in range(nsim)])
+                for r in sres:
+                    for b in r["bad"]:
+                        ofail.append({"why": "in-agent check list: " + b, "session": r["script"], "config": r["cfg"]})
+                chk.cov["generator_distribution"]["sim_sessions"] = len(sres)
+                chk.cov["generator_distribution"]["sim_checklists_inspected"] = sum(r["nlists"] for r in sres)
+                chk.cov["generator_distribution"]["sim_role_switches_observed"] = sum(r["switches"] for r in sres)
+                chk.cov["evaluations"] += sum(r["nlists"] for r in sres)
+            else:
+                chk.note("sim harness build failed: " + slog[-800:])
     return conclude(chk, st, diverged, ofail, "kern_drv:k/prio/plist")
 
 
